@@ -75,16 +75,33 @@ def targets(ctx):
         again = cls().parse(bytes(loaded)) if it.get("drop") else loaded
         return norm(schema, mi, snap_bp(schema, mi, again)) == want, want
 
-    def read_all(items, data, stop_on_raise=True):
+    class OnlyRead:
+        """A stream that offers read() and nothing else (a pipe, a socket file, a decompressor): all that
+        load()'s SupportsRead[bytes] parameter promises.  `pos` is the harness's own view of the position."""
+
+        def __init__(self, data):
+            self._s = BytesIO(data)
+
+        def read(self, n=-1):
+            return self._s.read(n)
+
+        def tell_for_harness(self):
+            return self._s.tell()
+
+    def read_all(items, data, stop_on_raise=True, only_read=False):
         """-> list of ('ok', msg, tell) / ('raise', exc)"""
-        s = BytesIO(data)
+        s = OnlyRead(data) if only_read else BytesIO(data)
+        if only_read:
+            s_tell = s.tell_for_harness
+        else:
+            s_tell = s.tell
         out = []
         for it in items:
             try:
                 m = reader_cls(it)().load(s, betterproto.SIZE_DELIMITED)
-                out.append(("ok", m, s.tell()))
+                out.append(("ok", m, s_tell()))
             except Exception as e:  # noqa: BLE001
-                out.append(("raise", e, s.tell()))
+                out.append(("raise", e, s_tell()))
                 if stop_on_raise:
                     break
         return out
@@ -122,7 +139,8 @@ def targets(ctx):
                 fails.append(Failure("reference_rejects_stream", f"reference_rejects_stream|{kinds}", f"frame {i}: {e}"))
                 break
         # intact read
-        res = read_all(items, data)
+        only_read = bool(case.get("only_read"))
+        res = read_all(items, data, only_read=only_read)
         for i, (it, r) in enumerate(zip(items, res)):
             what = ("empty" if not it["tree"] else "nonempty") + ("_older" if it.get("drop") else "")
             prev = "first" if i == 0 else ("after_empty" if not items[i - 1]["tree"] else "after_nonempty")
@@ -150,7 +168,7 @@ def targets(ctx):
                 n_inside += 1
             plen = len(wire.enc_varint(len(payloads[fi_]))) if fi_ < len(payloads) else 0
             region = "boundary" if at_boundary else ("prefix" if cut < offsets[fi_] + plen else "body")
-            res = read_all(items, data[:cut])
+            res = read_all(items, data[:cut], only_read=only_read)
             for i, r in enumerate(res):
                 if r[0] == "raise":
                     break
@@ -167,17 +185,18 @@ def targets(ctx):
                     if sig not in seen:
                         seen.add(sig)
                         fails.append(Failure(clause, sig, f"cut={cut}/{len(data)} frame {i} (frame bytes {offsets[i]}..{offsets[i + 1]}) returned a message; want {want!r:.160}",
-                                             case={"msgs": items, "only_cut": cut}))
+                                             case={"msgs": items, "only_cut": cut, **({"only_read": True} if only_read else {})}))
                     break
         multi = len(items) >= 2 and any((not it["tree"]) or it.get("drop") for it in items)
         labs = [f"n_msgs:{len(items)}", f"kinds:{kinds}", f"stream_len:{min(len(data) // 50 * 50, 400)}"]
+        labs.append("stream:" + ("read_only_object" if only_read else "BytesIO"))
         if any(it.get("sized_then_filled") for it in items):
             labs.append("instance_sized_before_filled_in_place")
         return Eval(fails, weight=1 + len(data), nontrivial_count=n_inside + (1 if multi else 0), labels=labs)
 
     def ev(case):
         if "only_cut" in case:  # replay of a single cut point
-            full = evaluate({"msgs": case["msgs"]})
+            full = evaluate({k: v for k, v in case.items() if k != "only_cut"})
             full.failures = [f for f in full.failures if f.case is None or f.case.get("only_cut") == case["only_cut"]]
             return full
         return evaluate(case)
@@ -213,5 +232,6 @@ def targets(ctx):
     ] + ([{"msg": "Repeats", "tree": {"r_fixed64": [7] * 2050}}] if ctx.thorough else []) + [
         {"msg": "Repeats", "tree": {"r_leaf": [{"i": 1}] * 40, "r_string": ["ab"] * 30}, "drop": [18]},
     ])
-    strat = st.lists(st.one_of(item(), item(), item(), item(), item(), big_item), min_size=0, max_size=6).map(lambda xs: {"msgs": xs})
+    strat = st.tuples(st.lists(st.one_of(item(), item(), item(), item(), item(), big_item), min_size=0, max_size=6), st.booleans()).map(
+        lambda t: {"msgs": t[0], **({"only_read": True} if t[1] else {})})
     return [Target("delimited_streams_all_cuts", ev, strategy=strat, quick=120, thorough=1500, time_quick=80)]
